@@ -144,9 +144,9 @@ func (in *vfC13Inst) Apply(ev string, judge bool) string {
 
 func vfC13Scenarios(thorough bool) []*vfGWScenario {
 	var out []*vfGWScenario
-	d := 4
+	d := 5
 	if thorough {
-		d = 5
+		d = 6
 	}
 	msgs := map[string]vfMsgSpec{
 		"m1": {Topic: "t", Author: "p", Seq: 1, Size: 32}, "m2": {Topic: "t", Author: "x", Seq: 2, Size: 32}, "m3": {Topic: "t", Author: "x", Seq: 3, Size: 32},
